@@ -44,6 +44,29 @@ CHECKS = {
         "record sizes 1..11 reached through dt in {1,0.5,0.3} and durations {0,0.9,1,2,3,4}; dims {0,1,-1,-2}; the "
         "shipped strict-compatibility rule is taken as the definition of 'compatible' for strict constraints",
     ),
+    "C10": (
+        "model_checking", "DESIGN.md §3 C10",
+        "explicit-state BFS over contribute/update/clear/updatesome/del event sequences against a two-list model, plus an "
+        "exhaustive grid of the inductive stay-in-range step",
+        "All event sequences up to depth 4 (quick) / 5 (thorough) from two trainers on two parameters are executed on the real "
+        "Updater/Accumulator for every reduction (default, constructor, method) and bounding configuration (half/full x "
+        "multiplicative, scaled, power, scaled power, sharp) and compared exactly (dyadic values) with the list model after "
+        "every event, including accumulator cache coherence and isolation of the sibling parameter. Stay-in-range is an "
+        "inductive step on a 65x9x9 grid per dependence kind and order.",
+        "values between grid points not covered; unscaled power dependence excluded from the range clause as in the property; "
+        "float rounding tolerated at 1e-6*range",
+    ),
+    "C16": (
+        "model_checking", "DESIGN.md §3 C16",
+        "explicit-state BFS to fixpoint of the hook firing FSM (registered x trainexec x evalexec x mode x alive) on real Hook / "
+        "ContextualHook / StateHook / Clamping objects, plus full grids for clamp/normalise post-conditions",
+        "Every event (register, double register, deregister, train/eval, module call, manual call with force/ignore_mode, flag "
+        "setters, delete-and-collect) is executed from every reachable FSM state for 10 hook kinds x 4 initial flag combinations; "
+        "probe call deltas, pre/post order and live handle counts are compared with the FSM. Post-conditions are checked on all 625 "
+        "(2,2) tensors over a 5-value alphabet x bounds x orders x scales x dims.",
+        "torch hook dispatch trusted; one hook per module (interference between two hooks is explored in the thorough tier only "
+        "if present); tensors outside the value alphabet not covered",
+    ),
 }
 
 PENDING_REASON = "check not built yet in this session (claimed in DESIGN.md; will move to checks when its exploration exists)"
